@@ -22,10 +22,13 @@ URGENT_CLS, ORDINARY_CLS = 0, 1
 
 
 class Probe:
-    def __init__(self, tag, ticks):
+    sig = 'c01-long'
+
+    def __init__(self, tag, ticks, env=None):
         self.tag, self.ticks = tag, ticks
         self.rng = random.Random(tag)
-        self.env = Environment()
+        self.env = Environment() if env is None else env
+        self.context = None      # where in the run the judged coincidences lie (default: after more than `ticks` occurrences)
         self.occ = []        # registered occurrences: dict(what, cls, due, trig_obs)
         self.obs = []        # (occurrence index, env.now) in the order the program observed them
         self.fails = []
@@ -153,15 +156,16 @@ class Probe:
 
     def judge(self):
         occ, obs, env = self.occ, self.obs, self.env
+        ctx = self.context or f'after more than {self.ticks} scheduled occurrences'
         pos = {}
         last = None
         for k, (i, now) in enumerate(obs):
             if i in pos:
-                self.fails.append({'what': f'{occ[i]["what"]} took effect twice', 'signature': 'c01-long-twice'}); break
+                self.fails.append({'what': f'{occ[i]["what"]} took effect twice', 'signature': f'{self.sig}-twice'}); break
             pos[i] = k
             if now != occ[i]['due']:
                 self.fails.append({'what': f'{occ[i]["what"]}: due at {occ[i]["due"]!r}, took effect at {now!r} '
-                                           f'(after more than {self.ticks} scheduled occurrences)', 'signature': 'c01-long-due'}); break
+                                           f'({ctx})', 'signature': f'{self.sig}-due'}); break
             if last is not None and now < last:
                 self.fails.append({'what': f'simulated time decreased from {last!r} to {now!r}', 'signature': 'time-decreased'}); break
             last = now
@@ -173,18 +177,111 @@ class Probe:
             for b in range(a + 1, len(obs)):
                 j = obs[b][0]
                 if not (key(i) < key(j) or occ[j]['trig_obs'] > a):
-                    self.fails.append({'what': f'after more than {self.ticks} scheduled occurrences, at {obs[a][1]!r}: [{occ[i]["what"]}] ({cls[occ[i]["cls"]]}, '
+                    self.fails.append({'what': f'{ctx}, at {obs[a][1]!r}: [{occ[i]["what"]}] ({cls[occ[i]["cls"]]}, '
                                                f'trigger #{i}) took effect before [{occ[j]["what"]}] ({cls[occ[j]["cls"]]}, trigger #{j}, due at '
                                                f'{occ[j]["due"]!r}), which was already pending and comes first (time, then urgent before ordinary, '
-                                               f'then trigger order)', 'signature': 'c01-long-order'})
+                                               f'then trigger order)', 'signature': f'{self.sig}-order'})
                     done = True; break
             if done:
                 break
         if not self.fails:
             for i, o in enumerate(occ):
                 if i not in pos and o['due'] < env.now:
-                    self.fails.append({'what': f'{o["what"]} (due at {o["due"]!r}) never took effect; now is {env.now!r}', 'signature': 'c01-long-lost'}); break
+                    self.fails.append({'what': f'{o["what"]} (due at {o["due"]!r}) never took effect; now is {env.now!r}', 'signature': f'{self.sig}-lost'}); break
         return self.fails[:3]
+
+
+class IntClockProbe(Probe):
+    """C01 quantifies over "timeouts with integer, float and zero delays": a program may keep an INTEGER clock (nanosecond
+    ticks, epoch nanoseconds given as `initial_time`).  Python integers are exact at any magnitude, so "t = t0 + d exactly" and
+    "the numeric run-until stop takes effect at t" must hold beyond 2**53 too, where neighbouring integers are no longer
+    distinct doubles.  The probe starts the clock at 2**53 + k, uses integer delays and integer `until`s only, arranges
+    coincidences of ordinary and urgent occurrences at a few instants and stops the run at, and next to, those instants; the
+    observed sequence is judged by the same restatement of C01 as the long-run probe (exact due instant, compared as Python
+    ints; time, then urgent before ordinary, then trigger order; nothing lost), and `now == t` after every `run(until=t)`."""
+    sig = 'c01-intclock'
+
+    def __init__(self, tag):
+        rng = random.Random(tag + '-t0')
+        self.t0 = 2 ** 53 + rng.choice([0, 1, 2, 3, 5, 8, 2 ** 53 + 1, 10 ** 17 + 7, 3 * 2 ** 60 + 1, rng.randrange(2 ** 54)])
+        super().__init__(tag, 0, Environment(initial_time=self.t0))
+        self.context = f'on an integer clock started at {self.t0} (beyond 2**53)'
+
+    def int_ticker(self, n):
+        env = self.env
+        for _ in range(n):
+            i = self.reg(f'ticker: timeout(1) created at {env.now!r}', ORDINARY_CLS, env.now + 1)
+            yield env.timeout(1)
+            self.seen(i)
+
+    def run(self):
+        env, rng, t0 = self.env, self.rng, self.t0
+        offs = sorted(rng.sample(range(1, 16), rng.randint(2, 4)))
+        instants = [t0 + o for o in offs]
+        self.victims = [env.process(self.victim(v)) for v in range(rng.randint(1, 2))]
+        makers = []
+        for t in instants:
+            for k in range(rng.randint(1, 4)):
+                r = rng.random()
+                if r < 0.3:
+                    makers.append(('bystander', t, []))
+                elif r < 0.5:
+                    makers.append(('plain', t, None))
+                else:
+                    makers.append(('actor', t, rng.choices(['spawn', 'interrupt', 'timeout0', 'succeed'], k=rng.randint(1, 3))))
+        rng.shuffle(makers)
+        for j, (kind, t, actions) in enumerate(makers):
+            if kind == 'plain':
+                self.timeout(t - env.now, 'set-up code')
+            else:
+                env.process(self.actor(f'{kind} {j}', t, actions))
+        if rng.random() < 0.8:
+            env.process(self.int_ticker(offs[-1] + 3))
+        stops = []
+        for t in instants:
+            x = rng.random()
+            if x < 0.55:
+                stops.append(t)
+            elif x < 0.75:
+                stops.append(t - 1)
+            elif x < 0.85:
+                stops.append(t + 1)
+        stops = sorted(set(s for s in stops if s > t0)) + [t0 + offs[-1] + 5]
+        for t in stops:
+            i = self.reg(f'run(until={t!r}) called at {env.now!r}', URGENT_CLS, t)
+            try:
+                env.run(until=t)
+            except BaseException as x:
+                self.fails.append({'what': f'run(until={t!r}) called at {env.now!r} {self.context} raised {x!r}', 'signature': f'{self.sig}-raised'})
+                return self.judge()
+            self.seen(i)
+            if env.now != t:
+                self.fails.append({'what': f'run(until={t!r}) {self.context} returned with now == {env.now!r} (off by {int(env.now) - t})',
+                                   'signature': f'{self.sig}-until-now'})
+                return self.judge()
+        return self.judge()
+
+
+def run_intclock(case):
+    p = IntClockProbe(case['tag'])
+    fails = p.run()[:3]
+    for f in fails:
+        f['case'] = case
+        f['trace'] = [f'{p.occ[i]["what"]} -> took effect at {now!r}' for i, now in p.obs[-60:]]
+    return fails, {'t0': p.t0, 'occurrences_registered': len(p.occ), 'observed': len(p.obs),
+                   'urgent': sum(1 for o in p.occ if o['cls'] == URGENT_CLS)}
+
+
+def intclock_probes(ctx, prop='C01'):
+    """the integer-clock probes of one check run: (failures, coverage)"""
+    fails, cov = [], []
+    for k in range(8 if ctx.quick else 200):
+        f, c = run_intclock({'probe': 'int-clock', 'tag': f'{prop}-intclock-{ctx.seed}-{k}'})
+        fails += f
+        cov.append(c)
+    return fails, {'probes': len(cov), 'occurrences_registered': sum(c['occurrences_registered'] for c in cov),
+                   'observed': sum(c['observed'] for c in cov), 'urgent': sum(c['urgent'] for c in cov),
+                   'clock_starts': sorted({c['t0'] for c in cov})[:12]}
 
 
 def probe_case(tag, ticks):
